@@ -1,6 +1,6 @@
 (** Executable entry point of the C06 model (run at exact rationals) and its
     extraction.  ExtrOcamlBasic only: Z, positive, Q, nat stay inductive. *)
-From Dino Require Import Base.Ops Base.Sums Gen.Tableaux Model.Integrators Extract.Common.
+From Dino Require Import Base.Ops Base.Sums Gen.Tableaux Model.Integrators Model.SeriesH Extract.Common.
 Require Extraction.
 Require Import ExtrOcamlBasic.
 
@@ -110,6 +110,23 @@ Definition run_C06 (cmd : Z) (ints : list Z) (arrs : list (list Q)) : option (li
       | 5%Z => Some (flat (sil3_a_ex, sil3_a_im, sil3_b_ex, sil3_b_im))
       | 1%Z => Some [leapfrog_alpha_default]
       | _ => Some [qofb gen_complete; qofb rk2_via_lowstorage]
+      end
+  | 5%Z => (* power series in h of one step for u' = F(u) + g u (Model/SeriesH.v, carrier Q, truncated after
+              h^(n-1)): ints = [scheme; n] (0..5 as above, 6 = exact flow; n = 0 means 5, the truncation of the
+              theorems), arrs = [[u0; g; alpha]; [c0..c4]] *)
+      let u0 := scalar arrs 0 0 in let g := scalar arrs 0 1 in let alpha := scalar arrs 0 2 in
+      let cs := arr arrs 1 in
+      let cq := fun q : Q => Qred q in
+      let n := match intn ints 1 with O => 5%nat | k => k end in
+      match int ints 0 with
+      | 0%Z => Some (run_euler (oB := QOps) n cs u0 g)
+      | 1%Z => Some (run_leapfrog (oB := QOps) cq n cs u0 g alpha)
+      | 2%Z => Some (run_rk2 (oB := QOps) cq n cs u0 g)
+      | 3%Z => Some (run_ls (oB := QOps) cq n cs u0 g rk3_alphas rk3_betas rk3_gammas)
+      | 4%Z => Some (run_ls (oB := QOps) cq n cs u0 g rk4_alphas rk4_betas rk4_gammas)
+      | 5%Z => run_imex (oB := QOps) cq n cs u0 g sil3_a_ex sil3_a_im sil3_b_ex sil3_b_im
+      | 6%Z => Some (exact_flow (oB := QOps) cq n cs u0 g)
+      | _ => None
       end
   | _ => None
   end.
